@@ -189,6 +189,7 @@ class SimFS:
         self.err_kinds = ("write", "creat", "trunc", "mkdir", "rename", "replace")
         self.err_fired = []
         self.read_err_at = {}  # event index -> errno (read side)
+        self.read_err_kinds = ("open-r", "listdir", "scandir")
         self.hook = None  # hook(kind, paths, mut): scheduler yield point
         self.observers = []  # fn(kind, paths, mut)
         self.log = None  # list of (kind, paths) for mutations when recording
@@ -210,6 +211,10 @@ class SimFS:
             self.hook(kind, paths, mut)
         for ob in self.observers:
             ob(kind, paths, mut)
+        if self.read_err_at and self.ev_seq in self.read_err_at and (mut or kind not in self.read_err_kinds):
+            # stat() does not fail with EMFILE, and hardly ever with EIO: a read-side error waits for
+            # the next open / listing (and is not spent on a mutation either)
+            self.read_err_at[self.ev_seq + 1] = self.read_err_at.pop(self.ev_seq)
         if not mut:
             e = self.read_err_at.pop(self.ev_seq, None)
             if e is not None:
